@@ -43,14 +43,14 @@ Proved for every spelling of a field line the strict decoder accepts (`Proofs/Re
 `ReqRoundtripOws.lean`, `ReqOwsBlank.lean`; second half of this file):
 * `field_line_scan`, `field_value_ows`, `field_value_canon`, `canon_is_canonVal`, `value_without_blanks_same`,
   `strict_value_without_blanks_same`, `head_roundtrip_ows`, `request_roundtrip_ows`, `serve_roundtrip_ows`,
-  `serve_roundtrip_ows_trimmed`, `serve_refines_spec_ows(_partial)`, `server_close_implies_strict_close`: a field line is
+  `serve_roundtrip_ows_trimmed`, `serve_refines_spec_ows`, `close_readings_agree`: a field line is
   `name ":" raw CRLF (cont CRLF)*` with `raw` any field-vchars (any optional whitespace, SP / HTAB, none or several, before
   and after the value) and obs-fold continuation lines `cont` (start with SP / HTAB, field-vchars, no colon), in the
   header section and in the trailer section.  The handler is handed `hval f`, the strict decoder returns `sval f`.
   Without obs-fold both are `trimOWS raw`, and the handler is handed exactly the strict decoder's reading of the requests
-  to be served (`serve_roundtrip_ows_trimmed`, conditions on the trimmed values).  With obs-fold `hval f` = the first line
-  without leading blanks, then the continuation lines with CRLF removed and leading HTABs turned into SPs, leading SPs and
-  trailing SP / HTAB of the whole removed (nothing compacted); `sval f` = OWS-trimmed lines joined by one SP; for every
+  to be served (`serve_roundtrip_ows_trimmed`, conditions on the trimmed values).  With obs-fold `hval f` = `trimOWS` of the
+  lines joined (CRLF removed, leading HTABs of a continuation line turned into SPs, nothing compacted);
+  `sval f` = OWS-trimmed lines joined by one SP; for every
   list of such requests (`wfOReq`) the handler gets exactly the requests to be served in the reading `seenW`, the strict
   decoder reads the stream back in the reading `strictW`, and the two readings are equal modulo `canon` = the driver's
   `canonVal` (proved equal for all values).  A value without blanks is the same in both readings.
@@ -59,10 +59,13 @@ Proved for every spelling of a field line the strict decoder accepts (`Proofs/Re
   close and the next pipelined request was served; `Content-Length:<HTAB>3` → 400; `Expect:<HTAB>100-continue` → no
   interim response).  Regression theorems on the same streams: `htab_connection_close_closes`,
   `htab_content_length_accepted`, `htab_expect_continue` (replayed on the repaired server: same, no spec failure).
-* what is left of it, `serve_refines_spec_ows_fails_at`, `fold_corner_content_length_refused`: the obs-fold corner "blank
-  first line, continuation line starting with SPs followed by a HTAB" (`Connection: CRLF ␠⇥close`): the handler's value
-  keeps the HTAB; model = real server (`replays-Q01/fold_corner.json`), the per-case check reports it (finding, see
-  INTEGRATION.md).  `serve_refines_spec_ows` holds with the explicit hypothesis `noLeadTab` that excludes exactly this.
+* FOUND BY THIS PROOF AFTER THAT, FIXED IN `/repo` 6637594: in the obs-fold corner "blank first line, continuation line
+  starting with SPs followed by a HTAB" (`Connection: CRLF ␠⇥close`) `normalizeHeaderValue` dropped leading SPs only and the
+  handler's value kept the HTAB (no close; `Content-Length: CRLF ␠⇥3` → 400).  Regression theorems on the same streams:
+  `fold_tab_connection_close_closes`, `fold_tab_content_length_accepted` (replayed on the repaired server,
+  `replays-Q01/fold_corner.json`: same, no spec failure).  Now `hval f = trimOWS (lines joined)`, handler and strict decoder
+  agree on every value without blanks in either reading, in particular on `Connection: close`, and `serve_refines_spec_ows`
+  holds without any side hypothesis.
 * `blank_lines_ignored`, `serve_roundtrip_blank_lines`, `spec_refuses_blank_line`: any number of empty lines (CRLF) in
   front of a request line are skipped by the server; the round trip holds with them (the strict decoder refuses them).
 
@@ -73,8 +76,10 @@ implementation's handler saw with the independent strict decoder `Spec/Http.lean
     fields are dropped by the server, missing ones are reported empty, `updateTrailer` fills by name), and `Trailer`
     declarations in another spelling than `n1, n2` (no blank after the comma, empty elements, a trailing comma) or
     naming a forbidden field (answered 400 when it is the last element);
-  - framing fields spelled in the obs-fold corner above (`Content-Length: CRLF ␠⇥3`): in the strict decoder's language,
-    refused by the server with 400 (witness `fold_corner_content_length_refused`; no general theorem);
+  - requests whose framing / `Trailer` conditions hold of the strict reading `sval` but are spelled with obs-fold: `wfOReq`
+    states them on `hval`; they coincide for values without blanks (`strict_value_without_blanks_same`: numbers, `chunked`)
+    but the transfer `wfOReqS → wfOReq` is proved only without obs-fold (`wfOReq_eq_wfOReqS`), a folded `Trailer` list may
+    differ in inner whitespace;
   - obs-fold continuation lines that contain a colon (refused by hertz with 400, `foldedColon` in the strict decoder: no claim);
   - bare LF line ends, empty lines after the last request, HTTP/1.0 request lines (the strict decoder refuses all of them).
 -/
@@ -257,21 +262,20 @@ the first CRLF, blanks included (so any optional whitespace, SP or HTAB, none or
 continuation line starts with SP / HTAB) plus "no colon in a continuation line" (hertz refuses those; the strict decoder
 flags them `foldedColon`, no claim).  `hval f` is what the handler is handed, `sval f` what the strict decoder returns:
 
-  `hval f = rOWS (dropWhile SP (dropWhile OWS raw ++ continuation lines with their leading HTABs turned into SPs))`,
+  `hval f = trimOWS (raw ++ continuation lines with their leading HTABs turned into SPs)`,
   `sval f = trimOWS (… trimOWS (trimOWS raw ++ SP ++ trimOWS cont₁) … ++ SP ++ trimOWS contₙ)`.
 
-(`rOWS` = trailing SP / HTAB removed.)  Since `/repo` 4c60fb1 — the repair of the finding made by this proof: hertz used to
-strip SP only, so `Connection:<HTAB>close` did not close, `Content-Length:<HTAB>3` was answered 400 and
-`Expect:<HTAB>100-continue` got no interim response — the scanner skips SP and HTAB after the colon and trims SP and HTAB
-before CRLF.  So without obs-fold both readings are `trimOWS raw` (`field_value_ows`) and the handler is handed exactly
-the strict decoder's reading (`serve_roundtrip_ows_trimmed`).  With obs-fold the CRLFs are removed, the continuation
-line's leading HTABs become SPs and nothing is compacted, so the readings differ in inner whitespace (equal modulo
-`canon`).  One corner is left where they differ at the front: the first line is blank and a continuation line starts with
-SPs followed by a HTAB (`X: CRLF ␠⇥v`): the compaction drops leading SPs only, the handler gets `⇥v` (`noLeadTab`,
-`fold_corner_*` below).  `OReq` is a request with such fields (header and trailer section), `seenW r` (values `hval`) /
-`strictW r` (values `sval`) its two readings as `WReq`, `wfOReq` the explicit well-formedness predicate: every line a
-`wfFLine`, and the framing / `Trailer` conditions of `wfReq` on the values as hertz reads them; `wfOReqS` the same with
-these conditions on the OWS-trimmed values `sval` (equivalent when there is no obs-fold, `wfOReq_eq_wfOReqS`). -/
+History: hertz used to strip SP only around a value (`Connection:<HTAB>close` did not close, `Content-Length:<HTAB>3` was
+answered 400, `Expect:<HTAB>100-continue` got no interim response) — found by this proof, fixed in `/repo` 4c60fb1; then
+the compaction of a folded value still dropped leading SPs only (`Connection: CRLF ␠⇥close` kept the HTAB) — found by the
+proof of the repaired model, fixed in `/repo` 6637594.  Now: without obs-fold both readings are `trimOWS raw`
+(`field_value_ows`) and the handler is handed exactly the strict decoder's reading (`serve_roundtrip_ows_trimmed`); with
+obs-fold the CRLFs are removed, the continuation line's leading HTABs become SPs and nothing is compacted, so the readings
+differ in inner whitespace only (equal modulo `canon`; equal outright when either has no blank).  `OReq` is a request with
+such fields (header and trailer section), `seenW r` (values `hval`) / `strictW r` (values `sval`) its two readings as `WReq`,
+`wfOReq` the explicit well-formedness predicate: every line a `wfFLine`, and the framing / `Trailer` conditions of `wfReq`
+on the values as hertz reads them; `wfOReqS` the same with these conditions on the values `sval` (equivalent when there is
+no obs-fold, `wfOReq_eq_wfOReqS`). -/
 
 /-- `POST /o HTTP/1.1`, `Host:h`, `Content-Length:␠␠␠3␠␠`, `X-A:⇥a␠␠b⇥␠`, `X-Fold:␠a CRLF ⇥␠b CRLF ␠␠c␠`, body `abc` -/
 def exOws : OReq :=
@@ -325,13 +329,12 @@ theorem value_without_blanks_same (f : FLine) (hf : wfFLine f = true) (hnb : ∀
 example : wfFLine ⟨[88], [32, 32], [[9, 99, 108, 111, 115, 101], [32]]⟩ = true ∧
     hval ⟨[88], [32, 32], [[9, 99, 108, 111, 115, 101], [32]]⟩ = [99, 108, 111, 115, 101] := by decide
 
-/-- … and conversely, outside the obs-fold corner (`noLeadTab f`: the handler's value does not start with a HTAB; always
-true without continuation lines), a value the strict decoder returns without blanks is handed over unchanged. -/
-theorem strict_value_without_blanks_same (f : FLine) (hf : wfFLine f = true) (hlt : noLeadTab f = true)
-    (hnb : ∀ c ∈ sval f, c ≠ 32 ∧ c ≠ 9) : hval f = sval f := hval_eq_sval_of_nb f hf hlt hnb
+/-- … and conversely (since `/repo` 6637594): a value the strict decoder returns without blanks is handed over unchanged. -/
+theorem strict_value_without_blanks_same (f : FLine) (hf : wfFLine f = true)
+    (hnb : ∀ c ∈ sval f, c ≠ 32 ∧ c ≠ 9) : hval f = sval f := hval_eq_sval_of_nb f hf hnb
 
-example : wfFLine ⟨[88], [9], [[9, 32, 51, 9]]⟩ = true ∧ noLeadTab ⟨[88], [9], [[9, 32, 51, 9]]⟩ = true ∧
-    hval ⟨[88], [9], [[9, 32, 51, 9]]⟩ = [51] := by decide
+example : wfFLine ⟨[88], [9], [[32, 9, 51, 9]]⟩ = true ∧ sval ⟨[88], [9], [[32, 9, 51, 9]]⟩ = [51] ∧
+    hval ⟨[88], [9], [[32, 9, 51, 9]]⟩ = [51] := by decide
 
 /-- Stage 1 for spelled fields: the head is parsed to `expectedHead` of the handler's reading, consuming exactly the head. -/
 theorem head_roundtrip_ows (dn : Bool) (r : OReq) (h : wfOReq dn r = true) (rest : Bytes) :
@@ -390,38 +393,31 @@ def exTabClose : List OReq :=
 example : (∀ r ∈ exTabClose, noFold r = true ∧ wfOReqS false r = true ∧ withinLimits {} (strictW r) = true) ∧
     exTabClose.map (fun r => (strictW r).fields.map (·.2)) = [[[104], [99, 108, 111, 115, 101]], []] := by decide +kernel
 
-/-- Model refines specification on these streams, provided handler and strict decoder agree on which requests say
-`Connection: close`: method, target and body of what the handler is handed are, request by request, what the strict
-decoder assigns to the requests that are to be served. -/
-theorem serve_refines_spec_ows_partial (cfg : Cfg) (e : End) (rs : List OReq)
-    (hw : ∀ r ∈ rs, wfOReq cfg.disableNorm r = true ∧ withinLimits cfg (seenW r) = true)
-    (hclose : ∀ r ∈ rs, closes (seenW r) = closes (strictW r)) :
-    Spec.Http.decodeAll (encAllO rs) = some (rs.map (fun r => toSpec (strictW r))) ∧
-    (handled (serve cfg e (encAllO rs))).map (fun s => (s.head.method, s.head.uri, s.body)) =
-      ((served cfg.disableKeepalive (rs.map strictW)).map toSpec).map (fun q => (q.method, q.target, q.body)) :=
-  ⟨decodeAll_encO rs (fun r hr => (hw r hr).1), serve_own_strict cfg e rs hw hclose⟩
+/-- Handler and strict decoder agree on which requests say `Connection: close` (the value `close` has no blank, so it is
+the same in both readings, whatever the spelling). -/
+theorem close_readings_agree (dn : Bool) (r : OReq) (h : wfOReq dn r = true) : closes (seenW r) = closes (strictW r) :=
+  closes_seen_eq_strict r h
 
-/-- One direction of `hclose` always holds: the server closes after a request only if the strict reading says
-`Connection: close` too. -/
-theorem server_close_implies_strict_close (dn : Bool) (r : OReq) (h : wfOReq dn r = true)
-    (hc : closes (seenW r) = true) : closes (strictW r) = true := closes_seen_strict r h hc
-
-/-- Since `/repo` 4c60fb1 `hclose` holds by itself outside the obs-fold corner: if no header field's value as handed to
-the handler starts with a HTAB (`noLeadTab`; automatic without continuation lines, `no_fold_no_lead_tab`), the model
-refines the specification. -/
+/-- Model refines specification on every stream of well-formed requests with spelled fields: the strict decoder accepts
+the stream, and method, target and body of what the handler is handed are, request by request, what the strict decoder
+assigns to the requests that are to be served (decided by the strict reading). -/
 theorem serve_refines_spec_ows (cfg : Cfg) (e : End) (rs : List OReq)
-    (hw : ∀ r ∈ rs, wfOReq cfg.disableNorm r = true ∧ withinLimits cfg (seenW r) = true)
-    (hlt : ∀ r ∈ rs, ∀ f ∈ r.fields, noLeadTab f = true) :
+    (hw : ∀ r ∈ rs, wfOReq cfg.disableNorm r = true ∧ withinLimits cfg (seenW r) = true) :
     Spec.Http.decodeAll (encAllO rs) = some (rs.map (fun r => toSpec (strictW r))) ∧
     (handled (serve cfg e (encAllO rs))).map (fun s => (s.head.method, s.head.uri, s.body)) =
       ((served cfg.disableKeepalive (rs.map strictW)).map toSpec).map (fun q => (q.method, q.target, q.body)) :=
-  serve_refines_spec_ows_partial cfg e rs hw (fun r hr => closes_seen_eq_strict r (hw r hr).1 (hlt r hr))
+  ⟨decodeAll_encO rs (fun r hr => (hw r hr).1), serve_own_strict' cfg e rs hw⟩
 
-theorem no_fold_no_lead_tab (f : FLine) (h : f.conts = []) : noLeadTab f = true := noLeadTab_nofold f h
+/-- `GET /a`, `Connection: CRLF ␠⇥close`; then `GET /b` -/
+def exFoldTabClose : List OReq :=
+  [{ method := [71, 69, 84], target := [47, 97],
+     fields := [⟨[67, 111, 110, 110, 101, 99, 116, 105, 111, 110], [], [[32, 9, 99, 108, 111, 115, 101]]⟩],
+     body := .none },
+   { method := [71, 69, 84], target := [47, 98], fields := [], body := .none }]
 
 set_option maxRecDepth 100000 in
-example : (∀ r ∈ [exOws, exOwsChunked] ++ exTabClose, wfOReq false r = true ∧ withinLimits {} (seenW r) = true) ∧
-    (∀ r ∈ [exOws, exOwsChunked] ++ exTabClose, ∀ f ∈ r.fields, noLeadTab f = true) := by decide +kernel
+example : ∀ r ∈ [exOws, exOwsChunked] ++ exTabClose ++ exFoldTabClose,
+    wfOReq false r = true ∧ withinLimits {} (seenW r) = true := by decide +kernel
 
 /-! #### regression: the HTAB witnesses of the finding repaired by `/repo` 4c60fb1
 
@@ -455,34 +451,25 @@ theorem htab_expect_continue :
       [80, 79, 83, 84, 32, 47, 101, 32, 72, 84, 84, 80, 47, 49, 46, 49, 13, 10, 69, 120, 112, 101, 99, 116, 58, 9, 49, 48, 48, 45, 99, 111, 110, 116, 105, 110, 117, 101, 13, 10, 67, 111, 110, 116, 101, 110, 116, 45, 76, 101, 110, 103, 116, 104, 58, 32, 49, 13, 10, 13, 10, 120])).map (fun s => s.body) = [[120]] := by
   decide +kernel
 
-/-! #### what is left: the obs-fold corner "blank first line, continuation line ␠…␠⇥value"
+/-! #### regression: the obs-fold corner "blank first line, continuation line ␠…␠⇥value", repaired by `/repo` 6637594
 
-`normalizeHeaderValue` drops leading SPs of the compacted value but not a HTAB that follows them, so the handler's value
-starts with the HTAB.  Replayed on the real server (`replays-Q01/fold_corner.json`): same as the model. -/
+Before, `normalizeHeaderValue` dropped leading SPs of the compacted value but not a HTAB that followed them: the handler's
+value started with the HTAB (`serve_refines_spec_ows_fails_at`, `fold_corner_content_length_refused` stated it of the
+previous model).  On the same streams now, model = real server (`replays-Q01/fold_corner.json`): -/
 
-/-- `GET /a`, `Connection: CRLF ␠⇥close`; then `GET /b` -/
-def exFoldTabClose : List OReq :=
-  [{ method := [71, 69, 84], target := [47, 97],
-     fields := [⟨[67, 111, 110, 110, 101, 99, 116, 105, 111, 110], [], [[32, 9, 99, 108, 111, 115, 101]]⟩],
-     body := .none },
-   { method := [71, 69, 84], target := [47, 98], fields := [], body := .none }]
-
-/-- The hypothesis `hlt` of `serve_refines_spec_ows` (resp. `hclose` of `…_partial`) cannot be dropped: these requests are
-well-formed, the strict decoder reads `Connection: close` in the first one (so only it is to be served), the handler's
-value is `⇥close`, the server does not close and hands both requests to the handler. -/
-theorem serve_refines_spec_ows_fails_at :
-    (∀ r ∈ exFoldTabClose, wfOReq false r = true ∧ withinLimits {} (seenW r) = true) ∧
-    exFoldTabClose.map (fun r => (seenW r).fields.map (·.2)) = [[[9, 99, 108, 111, 115, 101]], []] ∧
+/-- `Connection: CRLF ␠⇥close`: both readings are `close`, the server closes after the first request. -/
+theorem fold_tab_connection_close_closes :
+    exFoldTabClose.map (fun r => (seenW r).fields.map (·.2)) = [[[99, 108, 111, 115, 101]], []] ∧
     exFoldTabClose.map (fun r => (strictW r).fields.map (·.2)) = [[[99, 108, 111, 115, 101]], []] ∧
-    (handled (serve {} .eof (encAllO exFoldTabClose))).length = 2 ∧
+    (handled (serve {} .eof (encAllO exFoldTabClose))).map (fun s => s.head.uri) = [[47, 97]] ∧
+    (serve {} .eof (encAllO exFoldTabClose)).getLast? = some (.resp 200 true) ∧
     (served false (exFoldTabClose.map strictW)).length = 1 := by
   decide +kernel
 
-/-- `POST /a HTTP/1.1`, `Content-Length: CRLF ␠⇥3`, body `abc`: in the strict decoder's language (one request, body
-`abc`), answered 400 by the server (a refusal, nothing is mis-framed). -/
-theorem fold_corner_content_length_refused :
-    serve {} .eof
-      [80, 79, 83, 84, 32, 47, 97, 32, 72, 84, 84, 80, 47, 49, 46, 49, 13, 10, 67, 111, 110, 116, 101, 110, 116, 45, 76, 101, 110, 103, 116, 104, 58, 13, 10, 32, 9, 51, 13, 10, 13, 10, 97, 98, 99] = [.resp 400 true] ∧
+/-- `POST /a HTTP/1.1`, `Content-Length: CRLF ␠⇥3`, body `abc`: handled with body `abc`, as the strict decoder says. -/
+theorem fold_tab_content_length_accepted :
+    (handled (serve {} .eof
+      [80, 79, 83, 84, 32, 47, 97, 32, 72, 84, 84, 80, 47, 49, 46, 49, 13, 10, 67, 111, 110, 116, 101, 110, 116, 45, 76, 101, 110, 103, 116, 104, 58, 13, 10, 32, 9, 51, 13, 10, 13, 10, 97, 98, 99])).map (fun s => (s.head.uri, s.head.cl, s.body)) = [([47, 97], 3, [97, 98, 99])] ∧
     (Spec.Http.decodeAll
       [80, 79, 83, 84, 32, 47, 97, 32, 72, 84, 84, 80, 47, 49, 46, 49, 13, 10, 67, 111, 110, 116, 101, 110, 116, 45, 76, 101, 110, 103, 116, 104, 58, 13, 10, 32, 9, 51, 13, 10, 13, 10, 97, 98, 99]).map (fun l => l.map (fun q => (q.target, q.body))) = some [([47, 97], [97, 98, 99])] := by
   decide +kernel
